@@ -201,11 +201,23 @@ class DocActions(object):
                      if k in col_info}
 
     # Remove the column from the schema, then re-add it, to force creation of a new column object.
-    schema_table_info.columns.pop(col_id)
-    self._engine.rebuild_usercode()
+    try:
+      schema_table_info.columns.pop(col_id)
+      self._engine.rebuild_usercode()
 
-    schema_table_info.columns[col_id] = new
-    self._engine.rebuild_usercode()
+      schema_table_info.columns[col_id] = new
+      self._engine.rebuild_usercode()
+    except Exception:
+      # The column object holding the data is gone by now. Put the old column back along with its
+      # data before reporting the failure (e.g. an unknown type, or a formula that does not compile),
+      # or the rejected change would leave the column empty.
+      schema_table_info.columns.pop(col_id, None)
+      schema_table_info.columns[col_id] = old
+      self._engine.rebuild_usercode()
+      restored_column = table.get_column(col_id)
+      for row_id in table.row_ids:
+        restored_column.set(row_id, old_column.raw_get(row_id))
+      raise
 
     # Fill in the new column with the values from the old column.
     new_column = table.get_column(col_id)
